@@ -38,6 +38,7 @@ type Engine struct {
 	loadErrs       []string
 	axiomTerms     []axiomTerm
 	guardIdx       map[string]*guardDecl
+	ownContracts   map[string]*Contract // implementer refinements as written (before merging with the interface contract)
 	guardByField   map[string]*guardDecl
 }
 
@@ -122,7 +123,67 @@ func LoadEngine(repo string, trustedDir string, patterns []string) (*Engine, err
 		}
 		e.addSpecFile(sf, nil)
 	}
+	e.mergeImplementerContracts()
 	return e, nil
+}
+
+// mergeImplementerContracts: the effective contract of a method implementing a contracted /repo
+// interface is the interface contract plus the implementer's own refinement; it is used at static
+// and devirtualized call sites (the implementer is verified against it by implObligations).
+func (e *Engine) mergeImplementerContracts() {
+	e.ownContracts = map[string]*Contract{}
+	var keys []string
+	for k := range e.ifaceContracts {
+		keys = append(keys, k)
+	}
+	sort.Strings(keys)
+	for _, k := range keys {
+		ict := e.ifaceContracts[k]
+		if ict.IsTrustedFile || ict.Trusted {
+			continue
+		}
+		for _, fn := range e.implementers(ict) {
+			key := fn.RelString(nil)
+			own := e.contracts[key]
+			if own == nil {
+				continue
+			}
+			e.ownContracts[key] = own
+			ct := *ict
+			ct.Kind = "func"
+			ct.Key = key
+			ct.Tags = nil
+			ct.Aliases = map[string]string{}
+			if own.Recv != nil && ict.Recv != nil {
+				ct.Aliases[own.Recv.Name] = ict.Recv.Name
+			}
+			for i, p := range own.Params {
+				if i < len(ict.Params) {
+					ct.Aliases[p.Name] = ict.Params[i].Name
+				}
+			}
+			for i, p := range own.Results {
+				if i < len(ict.Results) {
+					ct.Aliases[p.Name] = ict.Results[i].Name
+				}
+			}
+			ct.Loops = own.Loops
+			ct.Asserts = own.Asserts
+			ct.Requires = append(append([]*Clause(nil), ict.Requires...), own.Requires...)
+			ct.Ensures = append(append([]*Clause(nil), ict.Ensures...), own.Ensures...)
+			ct.Modifies = append(append([]*Expr(nil), ict.Modifies...), own.Modifies...)
+			ct.Opts = map[string]string{}
+			for k2, v := range ict.Opts {
+				ct.Opts[k2] = v
+			}
+			for k2, v := range own.Opts {
+				ct.Opts[k2] = v
+			}
+			ct.implOf = ict
+			e.contracts[key] = &ct
+			e.contractPkg[&ct] = e.contractPkg[own]
+		}
+	}
 }
 
 func (e *Engine) addSpecFile(sf *SpecFile, pkg *types.Package) {
@@ -403,7 +464,7 @@ func (c *FnCtx) frameObligations(fr *Frame, exit *State, entryEnv *Env, ct *Cont
 			goal = Eq(before, after)
 		} else {
 			x := BVar("x", SInt)
-			conds := []*Term{Lt(x, ac0)}
+			conds := []*Term{Lt(App("rootof", SInt, x), ac0)}
 			for _, r := range allowed[k] {
 				conds = append(conds, Neq(x, r))
 			}
